@@ -60,17 +60,35 @@ def main():
         rc, out = sh(cmd, timeout=900)
         os.remove(demo_dst)
         return rc, out
+    # EVAL_FAST=1: a change that an earlier evaluation confirmed (demonstration passes on the unchanged tree, fails with
+    # the change, existing suite passes with it) is not confirmed again; only the checks are re-run
+    prev = None
+    if os.environ.get("EVAL_FAST"):
+        try:
+            prev = json.load(open(os.path.join(d, "result.json")))
+            if not (prev.get("demo_on_unchanged_tree") == "pass" and prev.get("existing_suite_with_change") == "pass" and str(prev.get("demo_with_change", "")).startswith("fails")):
+                prev = None
+        except Exception:
+            prev = None
     try:
-        rc, out = run_demo()
-        res["demo_on_unchanged_tree"] = "pass" if rc == 0 else "FAIL: " + out[-400:]
-        clean()
-        rc, out = sh("git apply %s" % os.path.join(d, "patch.diff"))
-        if rc != 0:
-            res["apply"] = "FAILED: " + out[-300:]; print(json.dumps(res, indent=1)); return 1
-        rc, out = sh(SUITE)
-        res["existing_suite_with_change"] = "pass" if rc == 0 else "FAIL: " + out[-600:]
-        rc, out = run_demo()
-        res["demo_with_change"] = "fails (as intended)" if rc != 0 else "PASSES (change not demonstrated)"
+        if prev:
+            for k in ("demo_on_unchanged_tree", "existing_suite_with_change", "demo_with_change"):
+                res[k] = prev[k]
+            res["confirmation"] = "carried over from an earlier evaluation of the same patch"
+            rc, out = sh("git apply %s" % os.path.join(d, "patch.diff"))
+            if rc != 0:
+                res["apply"] = "FAILED: " + out[-300:]; print(json.dumps(res, indent=1)); return 1
+        else:
+            rc, out = run_demo()
+            res["demo_on_unchanged_tree"] = "pass" if rc == 0 else "FAIL: " + out[-400:]
+            clean()
+            rc, out = sh("git apply %s" % os.path.join(d, "patch.diff"))
+            if rc != 0:
+                res["apply"] = "FAILED: " + out[-300:]; print(json.dumps(res, indent=1)); return 1
+            rc, out = sh(SUITE)
+            res["existing_suite_with_change"] = "pass" if rc == 0 else "FAIL: " + out[-600:]
+            rc, out = run_demo()
+            res["demo_with_change"] = "fails (as intended)" if rc != 0 else "PASSES (change not demonstrated)"
         res["checks"] = {}
         for c in checks:
             rc, out = sh("./check %s --tier %s" % (c, tier), cwd="/verif", timeout=7200)
